@@ -255,9 +255,13 @@ def explore_structure(acc, k, mask, pres, sizes_name, vclasses, seed, only=None,
                          nontrivial=len(model.cliques) >= 2)
                 acc.traces += 1
                 acc.transitions += len(msgs)
+                snap = [np.array(f.values, copy=True) for f in mpots.values()] if sc is None else None
                 marg = model.belief_propagation(mpots)
                 ok = compare(acc, case, {'vclass': vc, 'sched': 'library' if sc is None else 'permuted'},
                              model, marg, joint, attrs, total, 'belief_propagation')
+                if snap is not None and any(not np.array_equal(a, np.asarray(f.values), equal_nan=True) for a, f in zip(snap, mpots.values())):
+                    acc.violate(case, {'kind': 'potentials-mutated', 'vclass': vc}, 'belief_propagation modified the potentials it was given')
+                    mpots = model_potentials(model, attrs, sizes, pots, permute=(naming == 'scrambled'))
                 acc.outcome('%s:%s' % (vc, 'ok' if ok else 'FAIL'))
                 # logZ path must be finite and consistent with the reference normaliser
                 if ok and sc is None:
